@@ -1,0 +1,60 @@
+//! Verification hooks (compiled only with `--cfg ruschm_verif`).
+//!
+//! A logical step budget ("fuel") for the evaluator's trampoline and the macro
+//! expander, so that generated workloads that loop forever end in an ordinary
+//! error instead of hanging or exhausting the machine stack.  Unarmed (the
+//! default) every hook is inert.
+use std::cell::Cell;
+
+thread_local! {
+    static FUEL: Cell<Option<u64>> = Cell::new(None);
+    static STACK_BASE: Cell<usize> = Cell::new(0);
+    static STACK_LIMIT: Cell<usize> = Cell::new(0);
+    static EXHAUSTED: Cell<bool> = Cell::new(false);
+}
+
+pub const FUEL_MESSAGE: &str = "verif: fuel exhausted";
+
+/// Arm (Some) or disarm (None) the step budget of the current thread.  `stack_limit` is the
+/// number of bytes of machine stack, counted from the caller's frame, after which the budget
+/// counts as exhausted too (0 = no limit).
+pub fn set_fuel(fuel: Option<u64>, stack_limit: usize) {
+    let marker = 0u8;
+    FUEL.with(|f| f.set(fuel));
+    STACK_BASE.with(|b| b.set(&marker as *const u8 as usize));
+    STACK_LIMIT.with(|l| l.set(stack_limit));
+    EXHAUSTED.with(|e| e.set(false));
+}
+
+pub fn fuel_left() -> Option<u64> {
+    FUEL.with(|f| f.get())
+}
+
+/// true if the budget ran out since it was last armed
+pub fn exhausted() -> bool {
+    EXHAUSTED.with(|e| e.get())
+}
+
+/// one logical step; false when the budget is exhausted
+pub fn step() -> bool {
+    let ok = FUEL.with(|f| match f.get() {
+        None => true,
+        Some(0) => false,
+        Some(n) => {
+            f.set(Some(n - 1));
+            let limit = STACK_LIMIT.with(|l| l.get());
+            if limit == 0 {
+                true
+            } else {
+                let marker = 0u8;
+                let here = &marker as *const u8 as usize;
+                let base = STACK_BASE.with(|b| b.get());
+                base.saturating_sub(here) < limit
+            }
+        }
+    });
+    if !ok {
+        EXHAUSTED.with(|e| e.set(true));
+    }
+    ok
+}
